@@ -472,6 +472,75 @@ def foldX (env : Env J S C) (cfg : Cfg) (st : Stats) (raw : Text) (call : List S
 
 end
 
+/-! ### `_coerce_types_tracked`, one level deeper
+
+The generic model above treats the coercion helper as an arbitrary function (`Env.coerce`).  This section models
+its body over an environment of Python primitives (`isinstance`, `dict()`, `int()`, `float()`, `str()`, the two
+literal sets of the bool table, `split(',')`), so that `Env.coerce := coerceModel c` is one particular — the
+real — instance.  Keys `K` and values `V` are opaque. -/
+
+/-- how the `if / elif` chain classifies `field_info.annotation` -/
+inductive Ann where
+  | int | float | str | bool | list | other
+  deriving DecidableEq, Repr
+
+/-- the five entries of the coercion table -/
+inductive Conv where
+  | strToInt | strToFloat | numToStr | strToBool | strToList
+  deriving DecidableEq, Repr
+
+structure CEnv (J K V : Type) where
+  isList : J → Bool                       -- isinstance(data, list)
+  toDict : J → Res (List (K × V))         -- dict(data) (raises for scalars)
+  ofDict : List (K × V) → J               -- the dict that is handed on
+  fields : List (K × Ann)                 -- schema.model_fields, in order
+  isStr : V → Bool                        -- isinstance(value, str)
+  isNum : V → Bool                        -- isinstance(value, (int, float))
+  intOf : V → Option V                    -- int(value); none = ValueError
+  floatOf : V → Option V                  -- float(value); none = ValueError
+  strOf : V → V                           -- str(value)
+  boolOf : V → Option V                   -- lower() in the true set / the false set / neither
+  splitOf : V → V                         -- [v.strip() for v in value.split(',')]
+
+section
+variable {J K V : Type} [DecidableEq K]
+
+def lookupKey (d : List (K × V)) (k : K) : Option V := (d.find? (fun e => e.1 == k)).map (·.2)
+
+/-- `result[k] = v` for a key that is present (position kept) -/
+def setKey (d : List (K × V)) (k : K) (v : V) : List (K × V) := d.map fun e => if e.1 = k then (k, v) else e
+
+/-- one pass through the `if / elif` chain for a field that is present -/
+def convert (c : CEnv J K V) (a : Ann) (v : V) : Option (V × Conv) :=
+  match a with
+  | .int => if c.isStr v then (c.intOf v).map (·, .strToInt) else none
+  | .float => if c.isStr v then (c.floatOf v).map (·, .strToFloat) else none
+  | .str => if c.isNum v then some (c.strOf v, .numToStr) else none
+  | .bool => if c.isStr v then (c.boolOf v).map (·, .strToBool) else none
+  | .list => if c.isStr v then some (c.splitOf v, .strToList) else none
+  | .other => none
+
+/-- `for field_name, field_info in fields.items():` -/
+def coerceFields (c : CEnv J K V) : List (K × Ann) → List (K × V) → List (K × Conv) → List (K × V) × List (K × Conv)
+  | [], d, ls => (d, ls)
+  | (k, a) :: fs, d, ls =>
+    match lookupKey d k with
+    | none => coerceFields c fs d ls
+    | some v =>
+      match convert c a v with
+      | some (v', cv) => coerceFields c fs (setKey d k v') (ls ++ [(k, cv)])
+      | none => coerceFields c fs d ls
+
+/-- `_coerce_types_tracked` -/
+def coerceModel (c : CEnv J K V) (j : J) : Res (J × List (K × Conv)) :=
+  if c.isList j then .ok (j, [])
+  else
+    match c.toDict j with
+    | .raise e => .raise e
+    | .ok d => .ok (c.ofDict (coerceFields c c.fields d []).1, (coerceFields c c.fields d []).2)
+
+end
+
 /-! ### the pinned tables: what the indices `findall i` / `sub i` and the strategy constructors stand for
 
 Regenerated from the source on every run into `Operon/Gen/ChaperoneTables.lean` and compared by
